@@ -87,13 +87,21 @@ def fps_distance_matrix(spec, X, y):
     return d[:, None] + d[None, :] - 2 * M
 
 
+def spectrum_clear_of_cut(w, cut=1e-12):
+    """The code drops eigenvalues of X^T X below an *absolute* cut.  The documented
+    formula only determines the result when every eigenvalue is either clearly kept
+    or clearly rounding noise; otherwise the case is outside 'up to rounding'."""
+    w = np.asarray(w, dtype=float)
+    wmax = max(float(np.max(np.abs(w))), 1e-300)
+    kept = w > max(100 * cut, 1e-7 * wmax)
+    noise = np.abs(w) < min(cut / 100, 1e-13 * wmax)
+    return bool(np.all(kept | noise))
+
+
 def pcov_spectrum_guard(spec, X):
-    """For feature PCov-FPS the code cuts eigenvalues of X^T X at an absolute 1e-12;
-    the oracle's result only coincides when no eigenvalue is near that cut."""
-    if spec["cls"] != "PCovFPS" or axis_of(spec) != 1:
+    if not spec["cls"].startswith("PCov") or axis_of(spec) != 1:
         return True
-    w = np.linalg.eigvalsh(X.T @ X)
-    return not np.any((w > 1e-14) & (w < 1e-10))
+    return spectrum_clear_of_cut(np.linalg.eigvalsh(X.T @ X))
 
 
 def hausdorff(D, S):
@@ -162,7 +170,7 @@ def pi_oracle(spec, X, y, S):
     else:
         C = Xr.T @ Xr
         Ci, w = sym_isqrt(C)
-        if np.any((w > 1e-14) & (w < 1e-10)):
+        if not spectrum_clear_of_cut(w):
             return None, False
         Z = Ci @ (Xr.T @ yr)
         M = a * C + (1 - a) * (Z @ Z.T)
